@@ -54,8 +54,11 @@ TRUSTED = ["py/vlib/mapsgen.py: reading of the Map* method bodies (single return
            "numerically against the methods themselves on every run",
            "Model/Maps.v: hand model of Model._check_positive_finite/_init_parameter/setters and of "
            "numpy's IEEE special values under the six backward maps (tied by correspondence)"]
-ASSUMES = ["real arithmetic instead of IEEE-754: no overflow of 10**x/exp(x), no rounding",
-           "property arrays are broadcastable to the grid shape (shape errors are not part of C14)"]
+ASSUMES = ["theorems over R: real arithmetic instead of IEEE-754 (no rounding; over-/underflow of backward "
+           "enters the validation model only through the oracle ovf, which is None over R)",
+           "property arrays are broadcastable to the grid shape (shape errors are not part of C14)",
+           "float range of 10**x / exp(x): thresholds 309/-324 and 710/-746 written by hand in ovf_exec "
+           "(executable instance only), validated by correspondence with values 2 or more away from them"]
 
 NAMES = [n[3:] for n in MG.EXPECTED]
 _MAPS = {}
@@ -526,8 +529,18 @@ def gen_value(rng, name, pidx, bad):
     if not bad:
         if lin:
             return ('fin', rng.randint(1, 255) / 16.0 * 2.0 ** rng.randint(-12, 12))
-        return ('fin', rng.randint(-96, 96) / 16.0)      # log maps: any finite value
-    kind = rng.choice(['zero', 'neg', 'negzero', 'pinf', 'ninf', 'nan'])
+        return ('fin', rng.randint(-96, 96) / 16.0)      # log maps: any finite value in range
+    kind = rng.choice(['zero', 'neg', 'negzero', 'pinf', 'ninf', 'nan', 'range', 'range'])
+    if kind == 'range':
+        # finite values near / beyond the float range of 10**x (|x| ~ 308..324) and exp(x)
+        # (|x| ~ 710..746); the generator stays 2 away from the thresholds of ovf_exec
+        if lin:
+            return ('fin', rng.choice([1.0, -1.0]) * 2.0 ** rng.choice([-900, -600, 600, 900]))
+        if name.startswith('Lg'):
+            mag = rng.choice([rng.randint(200, 306), rng.randint(312, 321), rng.randint(327, 2000)])
+        else:
+            mag = rng.choice([rng.randint(500, 707), rng.randint(713, 743), rng.randint(749, 3000)])
+        return ('fin', float(mag) * rng.choice([1, -1]))
     if kind == 'zero':
         return ('fin', 0.0)
     if kind == 'neg':
@@ -976,10 +989,72 @@ def search_history(rng, n):
     return None
 
 
+def _verdict(name, slot, how, value, good):
+    """'accept' / 'reject' of the implementation for ONE cell value placed in slot (0,1,2 = x,y,z)
+    of mapping `name`, at construction or on assignment (other cells / slots hold `good`)."""
+    import emg3d
+    grid = emg3d.TensorMesh([[1.0, 1.0], [1.0], [1.0]], (0, 0, 0))
+    arr = np.array([good, value]).reshape(2, 1, 1)
+    base = np.array([good, good]).reshape(2, 1, 1)
+    kw = {PNAMES[i]: base.copy() for i in range(3)}
+    with np.errstate(all='ignore'), warnings.catch_warnings():
+        warnings.simplefilter('ignore')
+        try:
+            if how == 'construct':
+                kw[PNAMES[slot]] = arr
+                emg3d.Model(grid, mapping=name, **kw)
+            else:
+                m = emg3d.Model(grid, mapping=name, **kw)
+                setattr(m, PNAMES[slot], arr)
+            return 'accept'
+        except ValueError:
+            return 'reject'
+
+
+ACCEPT_CANDIDATES = [0.0, -0.0, -1.0, float('nan'), float('inf'), float('-inf'), 1e-320, -1e-320,
+                     1e300, 1e-300, 2.5, -2.5, 250.0, -250.0, 305.0, -305.0, 312.0, -312.0, 320.0,
+                     -320.0, 330.0, -330.0, 400.0, -400.0, 700.0, -700.0, 715.0, -715.0, 740.0,
+                     -740.0, 750.0, -750.0, 800.0, -800.0, 5000.0, -5000.0]
+
+
+def search_acceptance(rng, n_extra):
+    """The accepted set must not depend on the mapping: a property value p is accepted under
+    mapping M exactly when its back-mapped conductivity M.backward(p) (as the solver would use
+    it) is accepted under mapping Conductivity -- i.e. iff it is finite and > 0.  Every mapping,
+    x/y/z slot, construction and assignment; values whose backward is 0, inf, nan, negative or
+    over-/underflows."""
+    cands = list(ACCEPT_CANDIDATES)
+    for _ in range(n_extra):
+        cands.append(rng.choice([1, -1]) * rng.choice([rng.uniform(0, 10), rng.uniform(280, 340),
+                                                       rng.uniform(690, 760), 10 ** rng.uniform(-330, 308)]))
+    for name in NAMES:
+        mp = impl_map(name)
+        with np.errstate(all='ignore'):
+            good = float(mp.forward(np.array([2.0]))[0])
+        for p in cands:
+            with np.errstate(all='ignore'), warnings.catch_warnings():
+                warnings.simplefilter('ignore')
+                cond = float(mp.backward(np.array([p]))[0])
+            required = 'accept' if (np.isfinite(cond) and cond > 0) else 'reject'
+            for slot in range(3):
+                for how in ('construct', 'assign'):
+                    got = _verdict(name, slot, how, p, good)
+                    equiv = _verdict('Conductivity', slot, how, cond, 2.0)
+                    if got != equiv or got != required:
+                        return {'signature': f'{how}: {PNAMES[slot]} value accepted/rejected differently from '
+                                             f'its conductivity ({name})',
+                                'kind': 'acceptance', 'map': name, 'slot': PNAMES[slot], 'how': how,
+                                'value': repr(p), 'value_hex': float.hex(p) if p == p else 'nan',
+                                'conductivity': repr(cond), 'observed': got,
+                                'conductivity_mapped_equivalent': equiv, 'required': required}
+    return None
+
+
 def search(ctx, broken):
     rng = ctx.rng
     hits = []
     for f, args in ((search_history, (rng, 200 if ctx.thorough else 60)),
+                    (search_acceptance, (rng, 40 if ctx.thorough else 6)),
                     (search_validation, (rng, 300 if ctx.thorough else 80)),
                     (search_maps, (rng, 200 if ctx.thorough else 60)),
                     (search_coeffs, (rng, 40 if ctx.thorough else 12))):
@@ -1020,6 +1095,16 @@ def replay(ctx, payload):
         return search_coeffs(rng, 12, solve=(kind == 'solve')) is None
     if kind == 'history':
         return search_history_case(int(fi['seed'])) is None
+    if kind == 'acceptance':
+        p = float('nan') if fi['value_hex'] == 'nan' else float.fromhex(fi['value_hex'])
+        mp = impl_map(fi['map'])
+        with np.errstate(all='ignore'), warnings.catch_warnings():
+            warnings.simplefilter('ignore')
+            cond = float(mp.backward(np.array([p]))[0])
+            good = float(mp.forward(np.array([2.0]))[0])
+        required = 'accept' if (np.isfinite(cond) and cond > 0) else 'reject'
+        slot = PNAMES.index(fi['slot'])
+        return _verdict(fi['map'], slot, fi['how'], p, good) == required
     if kind == 'validation':
         return search_validation(rng, 300) is None
     return False
